@@ -135,7 +135,7 @@ pub fn c18_bytes_base64() {
 }
 
 crate::harnesses! {
-    #[kani::unwind(8)] c18_bytes_base64: "quick", "Value::json on Bytes -> base64 STANDARD engine", "every byte string of length 1-3";
+    #[kani::unwind(8)] c18_bytes_base64: "off", "Value::json on Bytes -> base64 STANDARD engine", "every byte string of length 1-3";
     #[kani::unwind(2)] c18_int_uint_bool_null: "quick", "Value::json on Int/UInt/Bool/Null; ser::to_value on the exported document", "all 64-bit payloads";
     #[kani::unwind(2)] c18_float: "quick", "Value::json on Float; ser::to_value on the exported document", "all f64 bit patterns";
     #[kani::unwind(2)] c18_duration: "quick", "Value::json on Duration", "every chrono duration (both sides of +-2^63 ns)";
